@@ -31,7 +31,13 @@ MANIFEST = dict(
          "run configuration but is filled from it where the descriptor is ingested (a cached element size) is resolved by data flow: its single "
          "element store is evaluated at the index at hand, provided every change of the tables it reads precedes that store in the same block; "
          "(e) 'the delimiter comes from the stored header' accepts _match_key as well as a lookup in a dict built from the header's entries with "
-         "folded keys.",
+         "folded keys; (f) the single-character reads that take the separator after a number are followed over every outcome of their tests on "
+         "the characters read (loops over blanks, look-ahead with ungetc; runs longer than a bound are cut and then give no verdict): on every "
+         "run that some stream content <separator><bytes of a following fixed-width string, blanks included> makes possible -- decided over the "
+         "whole domain of a character -- reads minus pushbacks must amount to exactly the one separator; (g) on every text path of "
+         "Recfile.write the array handed to Records::Write is contiguous by construction (copy / ascontiguousarray / a tested flag), given that "
+         "Records::Write takes PyArray_DATA and consults no strides; a path that knows <array>.dtype.isnative counts as native order; tests "
+         "joined by and / or are decided operand by operand.",
     note="Not decided: libc printf/scanf numeric round trip and libc's own spellings of NaN/inf (special values the code spells itself are decided). "
          "Assumes LP64 and that stdio calls succeed. Bounded shapes, not a proof for all sizes. The whitespace-directive hazard is a recorded known finding.",
     technique="static analysis: bounded symbolic execution of the C++ reader/writer and format-table code over the clang AST (trace comparison), "
@@ -78,7 +84,7 @@ def run(chk):
     tables(chk, scan, prt, arms)
     strings(chk, tu)
     delimiters(chk, tu, suffix)
-    python_side(chk, repo)
+    python_side(chk, repo, tu)
     # the converter used before a text write decides on every field with a byte order (shared rule with C16)
     from checks import C16
     C16.r16_6(chk, repo, rule="R04.3n", only="esutil.recfile.Util.to_native_inplace")
@@ -133,6 +139,10 @@ class _Return(_Flow):
 
 class _Throw(_Flow):
     pass
+
+
+class _Cut(Exception):
+    """a run made more tests on symbolic data than the exploration allows (a loop whose end depends on the input): the path is cut short"""
 
 
 class _Ref:
@@ -216,8 +226,8 @@ def _mkaff(base, off):
 
 
 class _CX:
-    def __init__(self, funcs, mem, opaque=(), prefix=(), cls="Records", maxsteps=20000, by_id=None):
-        self.funcs, self.mem, self.opaque, self.cls, self.by_id = funcs, dict(mem), set(opaque), cls, by_id or {}
+    def __init__(self, funcs, mem, opaque=(), prefix=(), cls="Records", maxsteps=20000, by_id=None, maxdec=None):
+        self.funcs, self.mem, self.opaque, self.cls, self.by_id, self.maxdec = funcs, dict(mem), set(opaque), cls, by_id or {}, maxdec
         self.prefix, self.dec, self.decided = list(prefix), [], {}
         self.events, self.nret, self.steps, self.maxsteps, self.depth = [], 0, 0, maxsteps, 0
         self.followed, self.foreign = [], set()
@@ -249,6 +259,8 @@ class _CX:
         if t in self.decided:
             return self.decided[t]
         i = len(self.dec)
+        if self.maxdec is not None and i >= self.maxdec:
+            raise _Cut()
         r = self.prefix[i] if i < len(self.prefix) else True
         self.dec.append(r)
         self.decided[t] = r
@@ -1013,17 +1025,20 @@ def _raw_universe():
     return decls, by_id
 
 
-def c_paths(tu, fname, args, mem, opaque=(), max_paths=400):
-    """every run of fname(*args) over the outcomes of the tests on symbolic data (depth first, `true` first)"""
+def c_paths(tu, fname, args, mem, opaque=(), max_paths=400, maxdec=None):
+    """every run of fname(*args) over the outcomes of the tests on symbolic data (depth first, `true` first).  With `maxdec` a run that
+    makes more than that many tests is cut there (its trace ends in "cut") and the exploration goes on with the other outcomes"""
     prefix = []
     n = 0
     while n < max_paths:
-        cx = _CX(tu.funcs, mem, opaque, prefix, by_id=tu.by_id)
+        cx = _CX(tu.funcs, mem, opaque, prefix, by_id=tu.by_id, maxdec=maxdec)
         try:
             v = cx.run(tu.funcs[fname], list(args))
             tr = _Trace(cx, "return", v)
         except _Throw as e:
             tr = _Trace(cx, "throw", e.value)
+        except _Cut:
+            tr = _Trace(cx, "cut", None)
         except (_Break, _Continue):
             raise _CUnrec("break/continue outside a loop")
         if n == 0 and cx.foreign and tu.upgrade():
@@ -1772,7 +1787,18 @@ def delimiters(chk, tu, suffix=None):
         out = {}
         for typ in (_D, _S):
             for ws in (0, 1):
-                tr = _one(tu, "Records::read_from_text_column", [1, buf], _mem(mTypeNums=_Arr(typ), mReadAsWhitespace=ws), opaque=("read_ascii_bytes", "scan_column_values"))
+                mem = _mem(mTypeNums=_Arr(typ), mReadAsWhitespace=ws)
+                if typ == _D and ws:
+                    # what is read behind the number may depend on the characters read: every outcome of the tests on them
+                    trs = list(c_paths(tu, "Records::read_from_text_column", [1, buf], mem, opaque=("read_ascii_bytes", "scan_column_values"), max_paths=3000, maxdec=10))
+                    heads = {tuple((c[1],) + tuple(c[2]) for c in tr.calls()[:1]) for tr in trs}
+                    if any(tr.stores() for tr in trs) or len(heads) != 1:
+                        raise _CUnrec("read_from_text_column stores on the test shape, or does not start the same way on every run")
+                    out["chars"] = _char_reads(trs, ("scan_column_values",), fptr, {"D": {32}, "N": {10}})
+                    shortest = min([tr for tr in trs if tr.end == "return"] or trs, key=lambda tr: len(tr.calls()))
+                    out[(typ, ws)] = [(c[1],) + tuple(c[2]) for c in shortest.calls()]
+                    continue
+                tr = _one(tu, "Records::read_from_text_column", [1, buf], mem, opaque=("read_ascii_bytes", "scan_column_values"))
                 if tr.end != "return" or tr.stores():
                     raise _CUnrec("read_from_text_column throws or stores on the test shape")
                 out[(typ, ws)] = [(c[1],) + tuple(c[2]) for c in tr.calls()]
@@ -1780,11 +1806,20 @@ def delimiters(chk, tu, suffix=None):
     res = _group(chk, dkeys, column)
     if res is not None:
         num, st = ("scan_column_values", 1, buf), ("read_ascii_bytes", 1, buf)
-        okw = res[(_D, 1)] == [num, ("fgetc", fptr)] and res[(_D, 0)] == [num]
-        chk.ob("R04.4", "reader::whitespace-mode-consumes-one-separator", okw, W,
-               "in whitespace mode one separator is consumed after a number (the scan format has no suffix there), otherwise none (%s)" % [[c[0] for c in res[(_D, w)]] for w in (0, 1)])
+        vs, why = [res[(_D, 0)] == [num], res[(_D, 1)][:1] == [num]], []
+        for case, what in (("D", "the blank delimiter"), ("N", "the newline that ends a row")):
+            v, w = _char_verdict(res["chars"][case], 1)
+            vs.append(v)
+            if v is not True:
+                why.append("behind a number followed by %s: %s" % (what, w))
+        if vs[0] is False:
+            why.insert(0, "in delimiter mode the reader makes reads of its own behind the number")
+        chk.ob("R04.4", "reader::whitespace-mode-consumes-one-separator", _verdict(vs), W,
+               "in whitespace mode exactly one character, the separator, is taken from the stream after a number whatever follows it -- the next field may be a "
+               "fixed-width string that begins with blanks -- (the scan format has no suffix there), otherwise none (%s%s)"
+               % ([[c[0] for c in res[(_D, w)]] for w in (0, 1)], "".join("; " + x for x in why[:2])))
         okd = res[(_S, 0)] == [st] and res[(_S, 1)] == [st] and res[(_D, 0)][:1] == [num] and res[(_D, 1)][:1] == [num]
-        chk.ob("R04.4", "reader::string-vs-number-dispatch", okd, W, "strings are read byte-wise, everything else by formatted scan (%s)" % {k: [c[0] for c in v] for k, v in res.items()})
+        chk.ob("R04.4", "reader::string-vs-number-dispatch", okd, W, "strings are read byte-wise, everything else by formatted scan (%s)" % {k: [c[0] for c in v] for k, v in res.items() if k != "chars"})
     skeys = [("R04.4", "reader::scan-uses-type-format", "numbers are scanned with the scan format of their type into the output element"),
              ("R04.4", "reader::cursor-advances-by-element-size", "the output cursor advances by one element per scanned element")]
 
@@ -1877,6 +1912,136 @@ def _suffix_consumes(dirs, delim_is_space, c):
     return n
 
 
+# ---- the single-character reads after a number, for every stream content ---------------------------------------------------------
+# Where the reader takes the separator after a number with single-character reads (whitespace mode: the scan format has no suffix),
+# how many it takes may depend on what it reads (a loop over blanks, a look-ahead with ungetc).  The stream behind a number is
+#   <separator> <first byte of the next field> <its second byte> ...
+# and the next field may be a fixed-width string, whose bytes are data: any ASCII character but the newline, blanks included.  Every
+# run of the reader over the outcomes of its tests on the characters read is explored; a run is possible when each character can be
+# chosen from its domain (position 0: the separator of the case at hand, later positions: any string byte) so that the tests come out
+# as they did on that run -- decided by evaluating the tests over the whole finite domain of a character, not on samples.  The rule:
+# on every possible run the reads minus the pushbacks amount to the expected number of bytes.
+_STR_BYTES = frozenset([9] + list(range(32, 127)))
+_CTYPE = {"isspace": lambda c: c in (32, 9, 10, 11, 12, 13), "isblank": lambda c: c in (32, 9), "isdigit": lambda c: 48 <= c <= 57,
+          "isalpha": lambda c: 65 <= c <= 90 or 97 <= c <= 122, "isalnum": lambda c: 48 <= c <= 57 or 65 <= c <= 90 or 97 <= c <= 122,
+          "isprint": lambda c: 32 <= c <= 126, "isgraph": lambda c: 33 <= c <= 126, "iscntrl": lambda c: c < 32 or c == 127,
+          "ispunct": lambda c: 33 <= c <= 126 and not (48 <= c <= 57 or 65 <= c <= 90 or 97 <= c <= 122)}
+
+
+def _term_eval(t, env, ctype):
+    """value of a term of the C interpreter under an assignment of the characters read (env: ret term -> int); KeyError / _CUnrec when
+    the term reads anything else"""
+    if isinstance(t, bool):
+        return int(t)
+    if isinstance(t, int):
+        return t
+    if not isinstance(t, tuple):
+        raise _CUnrec("test on %r" % (t,))
+    if t in env:
+        return env[t]
+    if t[0] == "ret" and t in ctype:
+        fn, arg = ctype[t]
+        return int(bool(_CTYPE[fn](_term_eval(arg, env, ctype))))
+    if t[0] == "op" and len(t) == 4:
+        a, b = _term_eval(t[2], env, ctype), _term_eval(t[3], env, ctype)
+        f = {"==": lambda: int(a == b), "!=": lambda: int(a != b), "<": lambda: int(a < b), ">": lambda: int(a > b), "<=": lambda: int(a <= b),
+             ">=": lambda: int(a >= b), "+": lambda: a + b, "-": lambda: a - b, "&": lambda: a & b, "|": lambda: a | b, "^": lambda: a ^ b}.get(t[1])
+        if f is None:
+            raise _CUnrec("operator %s in a test on a character read" % t[1])
+        return f()
+    if t[0] == "un" and len(t) == 3 and t[1] in ("!", "-", "~", "+"):
+        a = _term_eval(t[2], env, ctype)
+        return {"!": int(not a), "-": -a, "~": ~a, "+": a}[t[1]]
+    raise _CUnrec("test on %s" % _show(t))
+
+
+def _term_leaves(t, ctype, out):
+    if isinstance(t, tuple):
+        if t[0] == "ret":
+            if t in ctype:
+                _term_leaves(ctype[t][1], ctype, out)
+            else:
+                out.append(t)
+        elif t[0] in ("op", "un"):
+            for x in t[2:]:
+                _term_leaves(x, ctype, out)
+        else:
+            out.append(t)
+    return out
+
+
+def _char_reads(trs, after, fptr, first):
+    """`trs`: the runs of the column reader (c_paths with a limit on the tests).  `after`: names of the calls that read the number; the
+    events behind the last of them are the subject.  `first`: {case: domain of the first character read}.  Result per case:
+    {"sure": {net bytes taken: witness text}, "maybe": set of nets on runs whose possibility is not decided, "cut": a possible run was cut}."""
+    res = {c: {"sure": {}, "maybe": set(), "cut": False} for c in first}
+    for tr in trs:
+        if tr.end == "throw":
+            raise _CUnrec("the column reader throws on the test shape")
+        idx = max([i for i, e in enumerate(tr.events) if e[0] == "call" and e[1] in after] or [-1])
+        if idx < 0:
+            raise _CUnrec("no call of %s in the number reader" % "/".join(after))
+        gets, ungets, ctype, order = [], [], {}, []
+        for e in tr.events[idx + 1:]:
+            if e[0] != "call":
+                raise _CUnrec("a store behind the number")
+            if e[1] in _CHAR_READERS and e[2] == (fptr,):
+                gets.append(e[4])
+                order.append("g")
+            elif e[1] == "ungetc" and len(e[2]) == 2 and e[2][1] == fptr:
+                ungets.append(e[2][0])
+                order.append("u")
+            elif e[1] in _CTYPE and len(e[2]) == 1:
+                ctype[e[4]] = (e[1], e[2][0])
+            else:
+                raise _CUnrec("%s(%s) behind the number is not a single-character read" % (e[1], ", ".join(_show(a) for a in e[2])))
+        if tr.end != "cut" and ungets and (len(ungets) > 1 or order[-1] != "u" or not gets or ungets[0] != gets[-1]):
+            raise _CUnrec("ungetc is used in a way other than pushing back the character read last")
+        net = len(gets) - len(ungets)
+        cons, unsure = {g: [] for g in gets}, False
+        for t, val in tr.decided.items():
+            leaves = set(_term_leaves(t, ctype, []))
+            if len(leaves) == 1 and leaves <= set(gets):
+                cons[leaves.pop()].append((t, val))
+            else:
+                unsure = True          # a test on something else: either outcome may be impossible
+        for case, dom0 in first.items():
+            wit, possible = [], True
+            for pos, g in enumerate(gets):
+                sat = []
+                for b in sorted(dom0 if pos == 0 else _STR_BYTES):
+                    try:
+                        if all(bool(_term_eval(t, {g: b}, ctype)) == val for t, val in cons[g]):
+                            sat.append(b)
+                    except (_CUnrec, KeyError, TypeError):
+                        unsure = True
+                        sat.append(b)
+                if not sat:
+                    possible = False
+                    break
+                wit.append(32 if 32 in sat else sat[0])
+            if not possible:
+                continue
+            if tr.end == "cut":
+                res[case]["cut"] = True
+            elif unsure:
+                res[case]["maybe"].add(net)
+            else:
+                res[case]["sure"].setdefault(net, "the stream continues with the bytes %s: %d read, %d pushed back"
+                                             % (" ".join(repr(chr(b)) for b in wit) or "-", len(gets), len(ungets)))
+    return res
+
+
+def _char_verdict(r, want):
+    """True: every possible run takes `want` bytes; False (with the witness): a run that is certainly possible takes another number"""
+    bad = sorted((n, w) for n, w in r["sure"].items() if n != want)
+    if bad:
+        return False, "%d byte(s) taken instead of %d when %s" % (bad[0][0], want, bad[0][1])
+    if r["cut"] or r["maybe"] - {want} or not (r["sure"] or r["maybe"]):
+        return None, "not every run of the single-character reads could be followed to its end"
+    return True, ""
+
+
 def separator_after_number(chk, tu, suffix):
     """Every field reader leaves the stream at the first byte of the next field (the string reader takes that byte as data): after the
     last number of a field the one separator that follows must be consumed, and that separator is the delimiter between fields but the
@@ -1890,13 +2055,18 @@ def separator_after_number(chk, tu, suffix):
     def go():
         out = {}
         for ws in (0, 1):
-            tr = _one(tu, "Records::read_from_text_column", [1, buf], _mem(mTypeNums=_Arr(_D), mReadAsWhitespace=ws))
-            if tr.end != "return":
-                raise _CUnrec("read_from_text_column throws on the test shape")
-            names = [c[1] for c in tr.calls()]
+            mem = _mem(mTypeNums=_Arr(_D), mReadAsWhitespace=ws)
+            if ws:
+                # single-character reads may depend on the characters read (a loop, a look-ahead): every outcome, see _char_reads
+                trs = list(c_paths(tu, "Records::read_from_text_column", [1, buf], mem, max_paths=3000, maxdec=12))
+                first = {"D": {32}, "N": {10}}
+            else:
+                trs = [_one(tu, "Records::read_from_text_column", [1, buf], mem)]
+                first = {"D": _STR_BYTES, "N": _STR_BYTES}          # the suffix of the scan format took the separator (or is charged with it below)
+            names = [c[1] for c in min([tr for tr in trs if tr.end == "return"] or trs, key=lambda tr: len(tr.calls())).calls()]
             if "fscanf" not in names:
                 raise _CUnrec("no fscanf in the number reader: %s" % names)
-            out[ws] = names[len(names) - names[::-1].index("fscanf"):]
+            out[ws] = (names[len(names) - names[::-1].index("fscanf"):], _char_reads(trs, ("fscanf",), _FPTR, first))
         return out
     tails = _group(chk, [("R04.4", key, msg)], go)
     if tails is None:
@@ -1908,19 +2078,25 @@ def separator_after_number(chk, tu, suffix):
     for ws in (0, 1):
         suf = suffix.get("ws" if ws else "delim")
         dirs = _suffix_directives(suf)
-        tail = tails[ws]
-        extra = len(tail) if all(t in _CHAR_READERS for t in tail) else None
+        tail, chars = tails[ws]
         text = "?" if suf is None else " + ".join([repr(suf[0])] * bool(suf[0]) + ["mDelim" if p == _SYM("mDelim") else _show(p) for p in suf[1]]) or "none"
-        shown.append("%s mode: scan suffix %s, %s separate single-character read(s)" % ("whitespace" if ws else "delimiter", text, extra if extra is not None else tail))
+        shown.append("%s mode: scan suffix %s, separate single-character read(s) on the straight run: %s" % ("whitespace" if ws else "delimiter", text, tail or "none"))
         for blank in ((True,) if ws else (False, True)):
             for c in ("D", "N"):
                 n = None if dirs is None else _suffix_consumes(dirs, blank, c)
-                tot = None if n is None or extra is None else n + extra
-                verdicts.append(None if tot is None else tot == 1)
-                if tot is not None and tot != 1:
-                    bad.append((tot, "%s mode, %s delimiter: the %s after the last number of a field is %s" % (
+                if n is None:
+                    verdicts.append(None)
+                    continue
+                # the suffix takes n bytes from the separator on; the single-character reads must take the rest of the one separator on every
+                # run that some stream content makes possible
+                ok, why = _char_verdict(chars[c], 1 - n)
+                verdicts.append(ok)
+                if ok is False:
+                    tot = n + sorted(k for k in chars[c]["sure"] if k != 1 - n)[0]
+                    bad.append((tot, "%s mode, %s delimiter: the %s after the last number of a field is %s (scan suffix: %d; single-character reads: %s)" % (
                         "whitespace" if ws else "delimiter", "blank (tab)" if blank and not ws else ("blank" if blank else "non-blank"),
-                        "delimiter" if c == "D" else "end of line", "not consumed" if tot == 0 else "consumed together with %d byte(s) of the next field" % (tot - 1))))
+                        "delimiter" if c == "D" else "end of line",
+                        "not consumed" if tot <= 0 else "consumed together with %d byte(s) of the next field" % (tot - 1), n, why)))
     v = _verdict(verdicts)
     if v is False and all(t == 0 for t, _ in bad):
         # nothing consumes it at this level: a reader that does it once per row in the callers is a design this rule does not know
@@ -2092,16 +2268,34 @@ class _PX:
         """[(truth, state)] for the feasible outcomes of a test expression"""
         out = []
         for v, s in self.ev(test, st, ctx):
-            r = _fold(v, s)
-            if r is not None:
-                out.append((r, s))
-                continue
-            self._forked()
-            s2 = s.fork()
-            if s.assume(v, True):
-                out.append((True, s))
-            if s2.assume(v, False):
-                out.append((False, s2))
+            out += self.outcomes(v, s)
+        return out
+
+    def outcomes(self, v, s):
+        """the outcomes of a test term.  `a and b` / `a or b` / `not a` are decided operand by operand, left to right, as python does,
+        so that every path knows the elementary facts it rests on (`a and b` false: a false, or a true and b false)"""
+        r = _fold(v, s)
+        if r is not None:
+            return [(r, s)]
+        if v.op == "not":
+            return [(not t, s2) for t, s2 in self.outcomes(v.args[0], s)]
+        if v.op == "bool":
+            goes_on = v.name == "and"          # the truth value of an operand with which evaluation goes on to the next
+            out, live = [], [s]
+            for x in v.args:
+                nxt = []
+                for s1 in live:
+                    for t, s2 in self.outcomes(x, s1):
+                        (nxt if t == goes_on else out).append(s2 if t == goes_on else (t, s2))
+                live = nxt
+            return out + [(goes_on, s1) for s1 in live]
+        self._forked()
+        s2 = s.fork()
+        out = []
+        if s.assume(v, True):
+            out.append((True, s))
+        if s2.assume(v, False):
+            out.append((False, s2))
         return out
 
     def stmt(self, n, st, ctx):
@@ -2460,9 +2654,9 @@ def _verdict(vs):
     return True
 
 
-def python_side(chk, repo):
+def python_side(chk, repo, tu=None):
     strippers(chk, repo)
-    recfile_write(chk, repo)
+    recfile_write(chk, repo, tu)
     recfile_open(chk, repo)
     make_header(chk, repo)
     sfile_open(chk, repo)
@@ -2678,15 +2872,121 @@ def strippers(chk, repo):
         chk.ob("R04.3", key, _verdict(vs), fi.where(), msg + ((" (%s: %s)" % (fi.name, "; ".join(notes[:3]))) if notes else ""))
 
 
-def recfile_write(chk, repo):
+_NUMPY = ("numpy", "np")
+
+
+def _array_source(v):
+    """the array operand of a numpy call whose result has the dtype and the memory layout of that operand or is a plain copy of it
+    (x.view(numpy.ndarray), x.copy(), numpy.ascontiguousarray(x) ...), else None"""
+    if v is None or v.op != "call" or "dtype" in v.kw or "**" in v.kw:
+        return None
+    recv = v.args[0]
+    if recv is not None and _txt(recv) in _NUMPY:
+        if v.name in ("ascontiguousarray", "asarray", "asanyarray", "array", "copy", "atleast_1d", "require", "squeeze", "ravel") and len(v.args) >= 2 and \
+                (len(v.args) == 2 or v.name == "require"):
+            return v.args[1]
+        return None
+    if recv is None:
+        return None
+    if v.name == "view":
+        return recv if len(v.args) == 1 or (len(v.args) == 2 and _txt(v.args[1]).split(".")[-1] in ("ndarray", "recarray")) else None
+    if v.name in ("copy", "squeeze", "ravel", "flatten") or (v.name == "reshape"):
+        return recv
+    return None
+
+
+def _chain(v):
+    out = []
+    while v is not None and len(out) < 20:
+        out.append(v)
+        v = _array_source(v)
+    return out
+
+
+def _known_true(st, v, suffixes):
+    """a fact `<array>.<suffix>` is known to be true on the path, for the array or one it is a view / copy of"""
+    return any(st.known.get("%s.%s" % (_txt(t), sfx)) is True for t in _chain(v) for sfx in suffixes)
+
+
+_CONTIG_FACTS = ("flags.c_contiguous", "flags.contiguous", "flags.carray", "flags['C_CONTIGUOUS']", "flags['C']", "flags['CONTIGUOUS']", "flags['CARRAY']")
+
+
+def _contiguous(v, st):
+    """True: the rows of v are stored one after the other (C order) whatever the caller passed; False: v is the caller's array or a view
+    with its strides; None: not known"""
+    if v is None:
+        return None
+    if _known_true(st, v, _CONTIG_FACTS):
+        return True
+    if v.op == "param":
+        return False
+    if v.op != "call":
+        return None
+    src = _array_source(v)
+    if src is None:
+        return None
+    order = v.kw.get("order")
+    c_order = order is None or (order.op == "const" and order.name in ("C", "K", "A", None))      # K / A of a table (one dimension): its rows in sequence
+    nocopy = "copy" in v.kw and not (v.kw["copy"].op == "const" and v.kw["copy"].name is True)
+    numpy_fn = v.args[0] is not None and _txt(v.args[0]) in _NUMPY
+    if v.name in ("copy", "flatten") or (v.name == "array" and numpy_fn and not nocopy):
+        return True if c_order else None
+    if v.name == "ascontiguousarray" and numpy_fn:
+        return True
+    if v.name == "require" and numpy_fn:
+        req = v.args[2] if len(v.args) > 2 else v.kw.get("requirements")
+        names = [] if req is None else ([req] if req.op == "const" else list(req.args))
+        if any(x.op == "const" and isinstance(x.name, str) and x.name.upper() in ("C", "C_CONTIGUOUS", "CONTIGUOUS") for x in names):
+            return True
+        return _contiguous(src, st)
+    if v.name == "ravel":
+        return True if c_order else None
+    if v.name == "reshape":
+        return True if _contiguous(src, st) else None
+    return _contiguous(src, st)          # view / squeeze / asarray / atleast_1d / array(copy=False): the layout of the operand
+
+
+_STRIDE_AWARE = ("STRIDE", "GETPTR", "FLAGS", "CONTIGUOUS", "FromAny", "FROM_O", "FROMANY", "NewCopy", "NewLikeArray", "Iter", "ITER", "CopyInto")
+
+
+def _writer_walks_buffer(tu):
+    """Records::Write takes the start of the array's buffer (PyArray_DATA / PyArray_BYTES) and consults neither strides nor flags, nor
+    makes a contiguous array of its own: the rows must then lie one after the other in the buffer it is given"""
+    if tu is None:
+        return None
+    seen, todo, names = set(), ["Records::Write"], set()
+    while todo:
+        q = todo.pop()
+        fn = tu.funcs.get(q)
+        if q in seen or fn is None or cfront.body_of(fn) is None:
+            continue
+        seen.add(q)
+        for x in cfront.walk(cfront.body_of(fn)):
+            if x.get("kind") in ("CallExpr", "CXXMemberCallExpr"):
+                nm = cfront.callee_name(x)
+                if nm:
+                    names.add(nm)
+                    if x.get("kind") == "CXXMemberCallExpr" and len(seen) < 40:
+                        todo.append("Records::" + nm)
+    if "Records::Write" not in seen or not ({"PyArray_DATA", "PyArray_BYTES"} & names):
+        return None
+    if any(nm.startswith(("PyArray_", "NpyIter", "PyArray")) and any(w in nm for w in _STRIDE_AWARE) for nm in names):
+        return None
+    return True
+
+
+def recfile_write(chk, repo, tu=None):
     fi = repo.func("esutil.recfile.Util.Recfile.write")
     m1 = "for text files the data are converted to native order before Records::Write (and only then)"
     m2 = "the in-place conversion is applied to a copy (the effect analysis of C15 decides that the caller's buffer is unreachable)"
-    k1, k2 = "Recfile.write::native-order-before-text-write", "Recfile.write::converts-a-copy"
-    paths = _paths(chk, repo, fi, [(k1, m1), (k2, m2)])
+    m3 = ("for text files the array handed to Records::Write has its rows one after the other in memory whatever array the caller passed (a copy, "
+          "ascontiguousarray, or a test of its flags): the C++ writer walks the buffer from PyArray_DATA by the element sizes and never looks at the strides")
+    k1, k2, k3 = "Recfile.write::native-order-before-text-write", "Recfile.write::converts-a-copy", "Recfile.write::text-write-gets-contiguous-rows"
+    paths = _paths(chk, repo, fi, [(k1, m1), (k2, m2), (k3, m3)])
     if paths is None:
         return
-    v1, v2, notes = [], [], []
+    linear = _writer_walks_buffer(tu)
+    v1, v2, v3, notes, notes3 = [], [], [], [], []
     for ret, st in paths:
         calls = [(i, e[1]) for i, e in enumerate(st.events) if e[0] == "call"]
         convs = [(i, c) for i, c in calls if c.name in _INPLACE or c.name == "to_native"]
@@ -2697,21 +2997,49 @@ def recfile_write(chk, repo):
                 continue
             a = w.args[1]
             done = any(j < i and len(c.args) >= 2 and c.args[1] is a for j, c in convs if c.name in _INPLACE) or _is_call(a, "to_native")
+            # numpy's own statement that every field of the array is in native order, asked on this path about the array or what it is a view / copy of
+            native = _known_true(st, a, ("dtype.isnative",))
             if text is None:
                 # the write is reached without asking whether the file is text -- unless the question is spelled in a way not known here
                 other = [t for t in st.known if "delim" in t or "ascii" in t or "text" in t]
-                v1.append(None if other or raw else False)
+                v1.append(True if native and not (convs or raw) else (None if other or raw else False))
                 notes.append("Write(%s) reached without a decision on self.is_ascii %s" % (_txt(a), other))
             elif text:
                 # unconverted is a contradiction only for an array built in ways known here (view / copy / ... of the argument)
-                v1.append(True if done else (None if raw or not _plain_array(a) else False))
-                if not done:
+                v1.append(True if done or native else (None if raw or not _plain_array(a) else False))
+                if not (done or native):
                     notes.append("text path writes %s unconverted" % _txt(a))
             else:
                 bad = [c for j, c in convs if j < i] + raw
                 v1.append(not bad)
                 if bad:
                     notes.append("binary path converts: %s" % [_txt(c) for c in bad])
+            if text is not False:
+                cg = _contiguous(a, st)
+                if cg is None and a.op == "call" and a.args[0] is None:
+                    # a helper of the repository that was not followed: contiguous when each of its paths returns a contiguous array
+                    tgt = repo.funcs.get(repo.resolve_name(fi.module, a.name))
+                    if tgt is not None and not tgt.cls:
+                        try:
+                            rets = [(r, s) for status, r, s in _PX(repo, stop=_PY_STOP).run(tgt) if status in ("fall", "return")]
+                            if rets and all(_contiguous(r, s) is True for r, s in rets):
+                                cg = True
+                                chk.analysed_unit(tgt.qualname)
+                        except _Unrec:
+                            pass
+                if cg:
+                    v3.append(True)
+                elif text is None:
+                    v3.append(None)
+                    notes3.append("Write(%s) reached without a decision on self.is_ascii" % _txt(a))
+                else:
+                    sure = cg is False and linear and _plain_array(a)
+                    v3.append(False if sure else None)
+                    facts = sorted(t for t, b in st.known.items() if b and t != "self.is_ascii")
+                    notes3.append("on the text path%s Write gets %s, %s" % (
+                        (" where " + " and ".join(facts)) if facts else "", _txt(a),
+                        "the caller's array as it is or a view of it: a strided table (t[::2], a column-sliced view) is written from the rows of the underlying buffer"
+                        if cg is False else "whose memory layout is not known here"))
         for i, c in convs:
             inplace = c.name in _INPLACE or ("inplace" in c.kw and not (c.kw["inplace"].op == "const" and not c.kw["inplace"].name))
             if not inplace:
@@ -2725,6 +3053,8 @@ def recfile_write(chk, repo):
             v2.append(True if (c.name == "newbyteorder" or _fresh(c.args[0])) else None)
     chk.ob("R04.3", k1, _verdict(v1), fi.where(), m1 + (" (%s)" % "; ".join(notes[:3]) if notes else ""))
     chk.ob("R04.3", k2, _verdict(v2), fi.where(), m2 + (" (%s)" % "; ".join(notes[:3]) if notes else ""))
+    chk.ob("R04.3", k3, _verdict(v3), fi.where(), m3 + (" (%s)" % "; ".join(notes3[:3]) if notes3 else "")
+           + ("" if linear else " [Records::Write was not recognised as walking the buffer linearly]"))
 
 
 def _udtype(v):
